@@ -184,7 +184,7 @@ def run(tier):
     rep.functions = FUNCTIONS
     base = seed() * 7919
     modes = ['card', 'data', 'mix', 'data2']
-    nd = 48 if tier == 'quick' else 400
+    nd = 48 if tier == 'quick' else 2000
     tasks = [(base + i, 2 + i % 3, modes[i % 4]) for i in range(nd)]
     for r in run_pool(worker, tasks):
         rep.merge(r)
